@@ -68,7 +68,7 @@ def heads(fn, var):
     """isinstance chains that are not nested as the elif of another chain."""
     elifs = set()
     for n in walk_no_nested(fn):
-        if isinstance(n, ast.If) and len(n.orelse) == 1 and isinstance(n.orelse[0], ast.If):
+        if isinstance(n, ast.If) and _isinst(n.test, var) and len(n.orelse) == 1 and isinstance(n.orelse[0], ast.If):
             elifs.add(id(n.orelse[0]))
     for n, br in isinstance_chain(fn, var):
         if id(n) not in elifs:
@@ -102,16 +102,56 @@ def read_fields(body, var):
     return out
 
 
+def find_dispatch(ctx, fi: FuncInfo, var: str, param: str | None = None):
+    """The isinstance dispatch over the component: in fi itself (guard clauses read as else-branches) or in a helper
+    of the same module / class that fi hands the component to.  -> (FuncInfo, normalised node, var, param) or None"""
+    import dataclasses
+    from ..inline import else_normal
+
+    fn = else_normal(fi.node)
+    if list(heads(fn, var)):
+        return fi, fn, var, param
+    for c in walk_no_nested(fi.node):
+        if not isinstance(c, ast.Call):
+            continue
+        h = None
+        if isinstance(c.func, ast.Name):
+            h = fi.module.functions.get(c.func.id)
+        elif isinstance(c.func, ast.Attribute) and isinstance(c.func.value, ast.Name) and fi.cls is not None and c.func.value.id in ("self", "cls", fi.cls.name):
+            h = fi.cls.methods.get(c.func.attr)
+        if h is None or h.node is fi.node:
+            continue
+        hn = else_normal(h.node)
+        hp = [a.arg for a in h.node.args.args if a.arg not in ("self", "cls")]
+        for p in hp:
+            if list(heads(hn, p)):
+                newparam = param
+                if param is not None:
+                    bound = dict(zip(hp, c.args))
+                    bound.update({k.arg: k.value for k in c.keywords if k.arg})
+                    newparam = next((q for q, a in bound.items() if any(isinstance(x, ast.Name) and x.id == param for x in ast.walk(a)) and q != p), None)
+                    if newparam is None:
+                        continue
+                return h, hn, p, newparam
+    return None
+
+
 def h2_shifter(ctx, res: Result, fi: FuncInfo, shift_param: str, with_rel: bool, var="spec") -> int:
     """Every mode-bearing field of every kind is rewritten in the branch that handles the kind,
     with an expression that involves the shift parameter; fall-through branches only touch fields the
     kinds reaching them have."""
     table = kind_table(ctx)
+    found = find_dispatch(ctx, fi, var, shift_param)
+    if found is None:
+        res.frozen(False, "H2-every-mode-field-shifted", fi.qualname, fi.site(), fi.qualname, "", f"isinstance dispatch over the component not recognised in {fi.qualname} or a helper it calls", construct=fi.qualname)
+        return len(table)
+    fi, fnode, var, shift_param = found
     _CLOSURES.clear()
-    _CLOSURES.update(_closures(fi.node, shift_param))
-    chains = list(heads(fi.node, var))
+    _CLOSURES.update(_closures(fnode, shift_param))
+    chains = list(heads(fnode, var))
     if len(chains) != 1:
-        raise AnalysisError(f"{fi.qualname}: expected one isinstance dispatch over `{var}`, found {len(chains)}")
+        res.frozen(False, "H2-every-mode-field-shifted", fi.qualname, fi.site(), fi.qualname, "", f"expected one isinstance dispatch over `{var}`, found {len(chains)}", construct=fi.qualname)
+        return len(table)
     _n, branches = chains[0]
     n = 0
     for kind, flds in sorted(table.items()):
@@ -224,31 +264,98 @@ def _both_sides_shifted(body, var, fld, param):
     return False, f"no rewrite of {var}.{fld} found"
 
 
+def reads_under_kind(ctx, fi: FuncInfo, stmts, var: str, mro_names: set, depth=0) -> set:
+    """fields of `var` read on the paths that are feasible when var is an instance of a class with these MRO names
+    (three-valued evaluation of isinstance tests; guard clauses end a path; helpers that receive var are entered)"""
+    from .rm_struct import _isinstance_truth
+
+    out: set = set()
+
+    def expr_reads(e):
+        for x in ast.walk(e):
+            if isinstance(x, ast.Attribute) and isinstance(x.value, ast.Name) and x.value.id == var:
+                out.add(x.attr)
+            if isinstance(x, ast.Call) and depth < 3:
+                h = None
+                if isinstance(x.func, ast.Name):
+                    h = fi.module.functions.get(x.func.id)
+                elif isinstance(x.func, ast.Attribute) and isinstance(x.func.value, ast.Name) and fi.cls is not None and x.func.value.id in ("self", "cls", fi.cls.name):
+                    h = fi.cls.methods.get(x.func.attr)
+                if h is not None and h.node is not fi.node:
+                    hp = [a.arg for a in h.node.args.args if a.arg not in ("self", "cls")]
+                    for p_, a_ in list(zip(hp, x.args)) + [(k.arg, k.value) for k in x.keywords if k.arg]:
+                        if isinstance(a_, ast.Name) and a_.id == var:
+                            out.update(reads_under_kind(ctx, h, h.node.body, p_, mro_names, depth + 1))
+
+    def run(body) -> bool:
+        """-> True when the path ends inside body"""
+        for s_ in body:
+            if isinstance(s_, ast.If):
+                v = _isinstance_truth(ctx, s_.test, var, mro_names)
+                expr_reads(s_.test)
+                if v is True:
+                    if run(s_.body):
+                        return True
+                elif v is False:
+                    if run(s_.orelse):
+                        return True
+                else:
+                    e1, e2 = run(s_.body), run(s_.orelse)
+                    if e1 and e2:
+                        return True
+            elif isinstance(s_, (ast.For, ast.While)):
+                expr_reads(s_.iter if isinstance(s_, ast.For) else s_.test)
+                run(s_.body)
+                run(s_.orelse)
+            elif isinstance(s_, ast.With):
+                run(s_.body)
+            elif isinstance(s_, ast.Try):
+                run(s_.body)
+                for h_ in s_.handlers:
+                    run(h_.body)
+            elif isinstance(s_, (ast.FunctionDef, ast.AsyncFunctionDef, ast.ClassDef)):
+                continue
+            else:
+                expr_reads(s_)
+                if isinstance(s_, (ast.Return, ast.Raise, ast.Continue, ast.Break)):
+                    return True
+        return False
+
+    run(stmts)
+    return out
+
+
 def h2_touches(ctx, res: Result, fi: FuncInfo, var: str, collector: str) -> int:
-    """compress_mode_swaps: every mode a later component touches feeds the blocked set."""
+    """compress_mode_swaps: every mode a later component touches feeds the blocked set.  Decided per component kind
+    over the statements of the look-ahead loop that are feasible for that kind."""
     table = kind_table(ctx)
-    chains = [c for c in heads(fi.node, var)]
-    if not chains:
-        raise AnalysisError(f"{fi.qualname}: no isinstance dispatch over `{var}`")
-    _n, branches = chains[0]
+    # the look-ahead loop: a for loop nested in another for loop; its element variable is the later component
+    inner = None
+    for lp in walk_no_nested(fi.node):
+        if isinstance(lp, ast.For):
+            for l2 in ast.walk(lp):
+                if l2 is not lp and isinstance(l2, ast.For) and "circuit_spec" in src(l2.iter):
+                    inner = l2
+    if inner is None:
+        res.frozen(False, "H2-blocked-modes-complete", fi.qualname, fi.site(), fi.qualname, "", "look-ahead loop over the later components not recognised", construct=fi.qualname)
+        return len(table)
+    names = [x.id for x in ast.walk(inner.target) if isinstance(x, ast.Name)]
+    var = var if var in names else names[-1]
     n = 0
     for kind, flds in sorted(table.items()):
         if kind in ("Barrier",):
             continue  # identity on the modes: does not block
-        ks, body, node = branch_for(kind, branches, ctx)
         n += 1
         inst = f"{fi.qualname}:{kind}"
-        if node is None or (ks is None and not body):
-            res.bad("H2-blocked-modes-complete", inst, fi.site(), fi.qualname, f"kind {kind} is not considered when computing the modes a swap may not cross", construct=kind)
-            continue
+        mro = {c.name for c in ctx.ix.mro(ctx.ix.cls(kind))}
+        got = reads_under_kind(ctx, fi, inner.body, var, mro)
         need = {f for f in flds if f in MODE_FIELDS - {"circuit_spec"}}
-        got = read_fields(body, var)
         missing = need - got
         if kind == "UnitaryMatrix" and "unitary" not in got:
             missing.add("unitary (extent)")
         if missing:
-            res.bad("H2-blocked-modes-complete", inst, fi.site(node), fi.qualname,
+            res.bad("H2-blocked-modes-complete", inst, fi.site(inner), fi.qualname,
                     f"modes of {kind} field(s) {sorted(missing)} do not feed `{collector}`: a mode swap can be commuted past a component it overlaps", construct=f"{kind} missing {sorted(missing)}")
         else:
-            res.ok("H2-blocked-modes-complete", inst, fi.site(node), fi.qualname, f"reads {sorted(need)}")
+            res.ok("H2-blocked-modes-complete", inst, fi.site(inner), fi.qualname, f"reads {sorted(need)}")
     return n
